@@ -460,7 +460,15 @@ class Evaluator:
     def ev_Name(self, n):
         nm = n.id
         if self.st.has(nm):
-            return self.st.get(nm)
+            v = self.st.get(nm)
+            org = getattr(v, 'origin', None)
+            if org is not None and self.heap is self.st.heap:
+                # a local that aliases a collection stored in the heap: read through to the current contents
+                cur = self.ev(org)
+                cur = SV(cur.t, cur.z)
+                cur.origin = org
+                return cur
+            return v
         if nm in self.R.enums:
             return SV(T('enumcls', (), nm), nm)
         if nm in self.R.exc_parents or nm in self.R.exc_parents.values():
